@@ -355,7 +355,7 @@ def plan_c16(case):
     for m in ('der', 'cer', 'v_indefdef', 'v_long'):
         w = case['forms'].get(m)
         if w is not None:
-            ev.append(R.decu_event(m if m in ('der', 'cer') else 'ber', 'der' if m == 'der' else 'other', w))
+            ev.append(R.decu_event(m if m in ('der', 'cer') else 'ber', 'other', w))
     return trace(case, ev)
 
 
